@@ -17,7 +17,7 @@ ASSUMPTIONS = ['the independent evaluator (Python eval of the submitted right-ha
                'chaos()/tick() are the identity for the oracle: injected faults model transient evaluation failures']
 
 PROFILES = [('contractive', 5), ('contractive_plain', 2), ('mixed', 3), ('expansive', 2), ('hazard', 4),
-            ('chaos', 5), ('cap_small', 1)]
+            ('chaos', 5), ('cap_small', 1), ('econ_text', 1)]
 
 list_paths = eqncases.list_paths
 simplifiers = eqncases.simplifiers
